@@ -147,7 +147,7 @@ bool tcp_opts_equal(const struct tcp_opts *opts_a,
 	opts_a->keepalive_time == opts_b->keepalive_time &&
 	opts_a->keepalive_interval == opts_b->keepalive_interval &&
 	opts_a->keepalive_count == opts_b->keepalive_count &&
-	opts_a->user_timeout && opts_b->user_timeout;
+	opts_a->user_timeout == opts_b->user_timeout;
 }
 
 /* Equivalent to the tcp_info structure found in kernel 4.3's public
